@@ -9,13 +9,18 @@ footer text; reader: streaming header parser under `read_from_buf`, CR/LF-skippi
 1024-token decoder buffer with back-off, footer parser, CRC status).  Constants come from
 `RpgpModel/Gen/Constants.lean`, re-extracted from the source on every run.
 
-Three places where the code as it stands falls short of the property are modelled as they are,
+Two places where the code as it stands falls short of the property are modelled as they are,
 carry a guarded (`…_partial`) theorem and a concrete witness of the negation:
 
 * **D10**  `Dearmor::read_body` updates a copy of the CRC hasher (`crc_check_exact`).
 * **D10b** the header-line parsers are wrapped in `complete(..)`: a source view that ends inside the
   `Key: Value` lines makes `Dearmor` fail (`schedule_independent`).
-* **D10c** a header value that ends in `:` is read back as part of the key (`armor_roundtrip`).
+
+A third one, **D10c** (`key_value_pair` searched the whole remaining input for `":\n"` before `": "`, so
+a header value ending in `:` came back as part of the key), was repaired in the code (commit 737e504:
+the parser is line based); the model follows the repaired code, `armor_roundtrip` is stated for the
+exact class of header maps the format can carry, and `header_value_colon_regression` keeps the old
+parser's behaviour on record.
 -/
 namespace Rpgp.C10
 open Rpgp Rpgp.Armor
@@ -27,6 +32,15 @@ theorem constants_rfc :
     Gen.readChecksumBufLen = 4 ∧
     Gen.tokUpperLo = 65 ∧ Gen.tokUpperHi = 90 ∧ Gen.tokLowerLo = 97 ∧ Gen.tokLowerHi = 122 ∧
     Gen.tokDigitLo = 48 ∧ Gen.tokDigitHi = 57 := by decide
+
+/-- header lines: the writer's `": "` and LF are what the reader splits at, the empty-value marker is
+`:`; `key_value_pair` is the line-based parser (repair of D10c present, no whole-input search left)
+and is still run under `many0(complete(..))` (D10b) -/
+theorem header_line_sites_agree :
+    [Gen.wrKvSep0.toUInt8, Gen.wrKvSep1.toUInt8] = [COLON, SP] ∧
+    [Gen.rdKvSep0.toUInt8, Gen.rdKvSep1.toUInt8] = [COLON, SP] ∧
+    Gen.rdKvEmptySuffix.toUInt8 = COLON ∧ Gen.wrKvLineEnd.toUInt8 = LF ∧
+    Gen.kvLineBased = 1 ∧ Gen.kvWholeInputSearch = 0 ∧ Gen.kvPairsComplete = 1 := by decide
 
 /-- the decoder's token buffer is a whole number (≥ 2) of base64 quanta, its output buffer holds what
 one full token buffer decodes to, and the quanta are 4 → 3 — all that `decoder_any_capacity` needs -/
@@ -148,35 +162,71 @@ theorem b64_canonical_lines (d : Bytes) :
 type and header map, the reader returns type, headers, data and checksum when given: leading text
 (without `-`), LF or CRLF line endings, a separator line of blanks/tabs, CR/LF anywhere in the base64
 part (`BodyText`: any line lengths, blank lines), an optional checksum line followed by any number of
-line breaks, a footer with or without final line break, trailing colon-free text — and every source
+line breaks, a footer with or without final line break, any trailing text — and every source
 schedule whose first view contains the header section. -/
 theorem armor_tolerant (lead nl ws : Bytes) (t : BlockType) (h : Headers) (d B : Bytes)
     (ck : Option Nat) (les : List Bytes) (tail : Bytes) (X1 : Bytes) (cs : List Bytes)
     (hlead : ∀ b ∈ lead, b ≠ 45) (hnl : IsNl nl) (hws : ∀ b ∈ ws, b = SP ∨ b = TAB)
     (ht : typeOk t = true) (hh : WFHeaders h = true) (hB : BodyText B (b64enc d))
-    (hck : ∀ c, ck = some c → c < 2 ^ 24) (hles : ∀ le ∈ les, IsNl le) (htail : ∀ b ∈ tail, b ≠ COLON)
+    (hck : ∀ c, ck = some c → c < 2 ^ 24) (hles : ∀ le ∈ les, IsNl le)
     (hsplit : X1 ++ cs.flatten = restText B ck les t tail) :
     dearmor false ((headText lead nl ws t h ++ X1) :: cs) = readBack t h d ck := by
   rw [← dearmorResult_unchecked]
-  exact dearmor_armorText false lead nl ws t h d B ck les tail X1 cs hlead hnl hws ht hh hB hck hles htail hsplit
+  exact dearmor_armorText false lead nl ws t h d B ck les tail X1 cs hlead hnl hws ht hh hB hck hles hsplit
+
+/-! ### header lines: the exact class, every value -/
+
+/-- **one header line, every value**: a key of the class (`keyOk`: non-empty, one line, no `": "`
+inside, UTF-8) and *any* one-line UTF-8 value — ending in `:`, containing `": "`, with trailing blanks,
+empty — written as `Key: Value` with LF or CRLF is read back as exactly that pair, whatever follows -/
+theorem header_line_roundtrip (k v nl T : Bytes) (hk : keyOk k = true) (hv : valOk v = true) (hnl : IsNl nl) :
+    kvPair (k ++ COLON :: SP :: (v ++ nl ++ T)) = .ok (k, v) T :=
+  kvPair_line k v nl T hk hv hnl
+
+/-- **every header map the writer can emit unambiguously** (`WFHeaders`: strictly increasing keys of
+the class, any number of values per key — at least one —, every value one line of UTF-8) comes back
+from the header stage exactly, with the block type, for every text that follows -/
+theorem header_map_roundtrip (t : BlockType) (h : Headers) (X : Bytes)
+    (ht : typeOk t = true) (hh : WFHeaders h = true) :
+    headerParser (armorHead t h ++ X) = .ok (t, h, false) X := by
+  rw [armorHead_eq]
+  exact headerParser_headText [] [LF] [] t h X (by simp) (Or.inl rfl) (by simp) ht hh
+
+/-- **the class is exact**: whatever `key_value_pair` returns has a non-empty key without line break
+and without `": "` and a value without line break; keys outside the class therefore cannot survive
+(a key containing `": "` is split earlier, see `header_class_boundary`) -/
+theorem header_class_exact (i k v r : Bytes) (h : kvPair i = .ok (k, v) r) :
+    k ≠ [] ∧ noCrLf k = true ∧ noColonSp k = true ∧ noCrLf v = true :=
+  kvPair_returns_class i k v r h
 
 /-- **armor round trip**: `armor::write` then `Dearmor`, for every data length, block type and
-well-formed header map, with and without checksum.
-Full statement (`∀ h` representable in the format) fails on the unchanged tree for values ending in
-`:` (D10c, `header_value_colon_witness`); `WFHeaders` is the decidable guard. -/
-theorem armor_roundtrip_partial (t : BlockType) (h : Headers) (d : Bytes) (checksum : Bool)
+header map of the class above, with and without checksum. -/
+theorem armor_roundtrip (t : BlockType) (h : Headers) (d : Bytes) (checksum : Bool)
     (ht : typeOk t = true) (hh : WFHeaders h = true) :
     dearmor false [armorWrite t h d checksum] = readBack t h d (writtenCrc d checksum) := by
   rw [armorWrite_eq]
   exact armor_tolerant [] [LF] [] t h d (armorBody d) (writtenCrc d checksum) [[LF]] [LF] _ []
     (by simp) (Or.inl rfl) (by simp) ht hh (armorBody_bodyText d) (writtenCrc_lt d checksum)
-    (by simp [IsNl]) (by decide) (by simp)
+    (by simp [IsNl]) (by simp)
+
+/-- **trailing text** after the footer line is not looked at (it used to be searched for `": "`) -/
+theorem armor_trailing_text (t : BlockType) (h : Headers) (d : Bytes) (checksum : Bool) (trail : Bytes)
+    (ht : typeOk t = true) (hh : WFHeaders h = true) :
+    dearmor false [armorWrite t h d checksum ++ trail] = dearmor false [armorWrite t h d checksum] := by
+  rw [armor_roundtrip t h d checksum ht hh, armorWrite_eq]
+  have e : armorText [] [LF] [] t h (armorBody d) (writtenCrc d checksum) [[LF]] [LF] ++ trail =
+      headText [] [LF] [] t h ++ restText (armorBody d) (writtenCrc d checksum) [[LF]] t (LF :: trail) := by
+    simp [armorText, restText, footText, List.append_assoc]
+  rw [e]
+  exact armor_tolerant [] [LF] [] t h d (armorBody d) (writtenCrc d checksum) [[LF]] (LF :: trail) _ []
+    (by simp) (Or.inl rfl) (by simp) ht hh (armorBody_bodyText d) (writtenCrc_lt d checksum)
+    (by simp [IsNl]) (by simp)
 
 /-- the checksum that is emitted, and read back, is the RFC CRC-24 of the data -/
 theorem emitted_checksum_is_crc24 (t : BlockType) (h : Headers) (d : Bytes)
     (ht : typeOk t = true) (hh : WFHeaders h = true) :
     (dearmor false [armorWrite t h d true]).toOption.map (·.checksum) = some (some (crc24 d)) := by
-  rw [armor_roundtrip_partial t h d true ht hh]; rfl
+  rw [armor_roundtrip t h d true ht hh]; rfl
 
 /-- **source schedules** (guarded form): the armor may be cut into views anywhere after the header
 section — inside base64 lines, inside the checksum, inside the footer line.
@@ -185,10 +235,10 @@ theorem schedule_independent_partial (t : BlockType) (h : Headers) (d : Bytes) (
     (ht : typeOk t = true) (hh : WFHeaders h = true) (X1 : Bytes) (cs : List Bytes)
     (hsplit : X1 ++ cs.flatten = restText (armorBody d) (writtenCrc d checksum) [[LF]] t [LF]) :
     dearmor false ((armorHead t h ++ X1) :: cs) = dearmor false [armorWrite t h d checksum] := by
-  rw [armor_roundtrip_partial t h d checksum ht hh, armorHead_eq]
+  rw [armor_roundtrip t h d checksum ht hh, armorHead_eq]
   exact armor_tolerant [] [LF] [] t h d (armorBody d) (writtenCrc d checksum) [[LF]] [LF] X1 cs
     (by simp) (Or.inl rfl) (by simp) ht hh (armorBody_bodyText d) (writtenCrc_lt d checksum)
-    (by simp [IsNl]) (by decide) hsplit
+    (by simp [IsNl]) hsplit
 
 /-- **all source schedules, armor without header lines**: for the fifteen fixed block types, every
 payload, checksum on or off, CRC checking on or off, *every* way of cutting the writer's output into
@@ -204,37 +254,35 @@ theorem schedule_independent_no_headers (crcCheck : Bool) (t : BlockType) (ht : 
 theorem armor_crlf_invariant (t : BlockType) (h : Headers) (d : Bytes) (checksum : Bool)
     (ht : typeOk t = true) (hh : WFHeaders h = true) :
     dearmor false [toCrlf (armorWrite t h d checksum)] = dearmor false [armorWrite t h d checksum] := by
-  rw [armor_roundtrip_partial t h d checksum ht hh, toCrlf_armorWrite t h d checksum hh]
+  rw [armor_roundtrip t h d checksum ht hh, toCrlf_armorWrite t h d checksum hh]
   exact armor_tolerant [] [CR, LF] [] t h d (toCrlf (armorBody d)) (writtenCrc d checksum) [[CR, LF]] [CR, LF] _ []
     (by simp) (Or.inr rfl) (by simp) ht hh (armorBody_bodyText d).toCrlf (writtenCrc_lt d checksum)
-    (by simp [IsNl]) (by decide) (by simp)
+    (by simp [IsNl]) (by simp)
 
 /-- **blank and whitespace lines**: any blanks/tabs on the separator line, blank lines anywhere in the
-base64 part (any re-wrapping of it, in fact), blank lines before the footer line, missing final newline -/
+base64 part (any re-wrapping of it, in fact), blank lines before the footer line, missing final newline, anything after the footer line -/
 theorem armor_blank_invariant (t : BlockType) (h : Headers) (d : Bytes) (checksum : Bool)
     (ws B : Bytes) (les : List Bytes) (tail : Bytes)
     (ht : typeOk t = true) (hh : WFHeaders h = true)
-    (hws : ∀ b ∈ ws, b = SP ∨ b = TAB) (hB : BodyText B (b64enc d)) (hles : ∀ le ∈ les, IsNl le)
-    (htail : tail = [] ∨ tail = [LF]) :
+    (hws : ∀ b ∈ ws, b = SP ∨ b = TAB) (hB : BodyText B (b64enc d)) (hles : ∀ le ∈ les, IsNl le) :
     dearmor false [armorText [] [LF] ws t h B (writtenCrc d checksum) les tail] =
       dearmor false [armorWrite t h d checksum] := by
-  rw [armor_roundtrip_partial t h d checksum ht hh]
+  rw [armor_roundtrip t h d checksum ht hh]
   exact armor_tolerant [] [LF] ws t h d B (writtenCrc d checksum) les tail _ []
-    (by simp) (Or.inl rfl) hws ht hh hB (writtenCrc_lt d checksum) hles
-    (by rcases htail with rfl | rfl <;> decide) (by simp)
+    (by simp) (Or.inl rfl) hws ht hh hB (writtenCrc_lt d checksum) hles (by simp)
 
 /-- **leading text** before the BEGIN line -/
 theorem armor_leading_text (t : BlockType) (h : Headers) (d : Bytes) (checksum : Bool) (lead : Bytes)
     (ht : typeOk t = true) (hh : WFHeaders h = true) (hlead : ∀ b ∈ lead, b ≠ 45) :
     dearmor false [lead ++ armorWrite t h d checksum] = dearmor false [armorWrite t h d checksum] := by
-  rw [armor_roundtrip_partial t h d checksum ht hh, armorWrite_eq]
+  rw [armor_roundtrip t h d checksum ht hh, armorWrite_eq]
   have e : lead ++ armorText [] [LF] [] t h (armorBody d) (writtenCrc d checksum) [[LF]] [LF] =
       headText lead [LF] [] t h ++ restText (armorBody d) (writtenCrc d checksum) [[LF]] t [LF] := by
     simp [armorText, headText, List.append_assoc]
   rw [e]
   exact armor_tolerant lead [LF] [] t h d (armorBody d) (writtenCrc d checksum) [[LF]] [LF] _ []
     hlead (Or.inl rfl) (by simp) ht hh (armorBody_bodyText d) (writtenCrc_lt d checksum)
-    (by simp [IsNl]) (by decide) (by simp)
+    (by simp [IsNl]) (by simp)
 
 /-- the decoder loop is correct for **every** token-buffer capacity `4q ≥ 8`, not only the 1024 of
 the source (`decoder_buffer_shape` instantiates it) -/
@@ -259,7 +307,7 @@ is always against the initial state.  What holds:
 theorem crc_check_exact_partial (t : BlockType) (h : Headers) (d : Bytes) (checksum : Bool)
     (ht : typeOk t = true) (hh : WFHeaders h = true) :
     ∃ r, dearmor false [armorWrite t h d checksum] = .ok r ∧ r.data = d ∧ r.checksum = writtenCrc d checksum :=
-  ⟨_, armor_roundtrip_partial t h d checksum ht hh, rfl, rfl⟩
+  ⟨_, armor_roundtrip t h d checksum ht hh, rfl, rfl⟩
 
 /-- checking enabled, no checksum line: accepted (as the property demands) -/
 theorem crc_check_no_checksum (t : BlockType) (h : Headers) (d : Bytes)
@@ -268,7 +316,7 @@ theorem crc_check_no_checksum (t : BlockType) (h : Headers) (d : Bytes)
   rw [armorWrite_eq]
   exact dearmor_armorText true [] [LF] [] t h d (armorBody d) none [[LF]] [LF] _ []
     (by simp) (Or.inl rfl) (by simp) ht hh (armorBody_bodyText d) (by simp)
-    (by simp [IsNl]) (by decide) (by simp [writtenCrc])
+    (by simp [IsNl]) (by simp [writtenCrc])
 
 /-- checking enabled, checksum line present: what the code as it is decides — acceptance iff the
 checksum equals the CRC of the *empty* string, whatever the data -/
@@ -279,7 +327,7 @@ theorem crc_check_as_implemented (t : BlockType) (h : Headers) (d : Bytes)
     rw [armorWrite_eq]
     exact dearmor_armorText true [] [LF] [] t h d (armorBody d) (some (crc24 d)) [[LF]] [LF] _ []
       (by simp) (Or.inl rfl) (by simp) ht hh (armorBody_bodyText d) (writtenCrc_lt d true)
-      (by simp [IsNl]) (by decide) (by simp [writtenCrc])
+      (by simp [IsNl]) (by simp [writtenCrc])
   rw [e]
   have hinit : crc24 [] = crc24Init := rfl
   by_cases hc : crc24 d = crc24Init
@@ -309,12 +357,46 @@ theorem header_cut_witness :
     dearmor false [a] = readBack .message [(asc "Version", [asc "1"])] (asc "hi") (some (crc24 (asc "hi"))) := by
   decide +kernel
 
-/-- D10c: a header value ending in `:` does not survive the round trip (it becomes part of the key) -/
-theorem header_value_colon_witness :
-    (dearmor false [armorWrite .message [(asc "Comment", [asc "see below:"])] (asc "hi") false]).toOption.map (·.headers)
-      = some [(asc "Comment: see below", [[]])] ∧
-    WFHeaders [(asc "Comment", [asc "see below:"])] = false ∧
-    WFHeaders [(asc "Comment", [asc "see below"])] = true := by
+/-- header values that used to break (D10c) and the corners of the class, through the whole
+writer → reader path: values ending in `:`, containing `": "`, empty, with blanks around, several
+values under one key, a key with `:` inside and at its end, a value that is a lone `:` -/
+theorem header_values_witness :
+    let h : Headers := [(asc "Comment", [asc "see below:", asc "a: b: c", [], asc " x  ", asc ":"]),
+                        (asc "a:b", [asc "v"]), (asc "k:", [asc ": "])]
+    WFHeaders h = true ∧
+    dearmor false [armorWrite .message h (asc "hi") true] = readBack .message h (asc "hi") (some (crc24 (asc "hi"))) ∧
+    dearmor false [toCrlf (armorWrite .message h (asc "hi") true)] = readBack .message h (asc "hi") (some (crc24 (asc "hi"))) := by
+  decide +kernel
+
+/-- the boundary of the class: a key containing `": "` is split at the first one, an empty key and a
+line without any colon are not header lines, `Key:` + LF / CR LF is an empty value, a line that is
+not UTF-8 or has no line ending yet is not accepted (`complete` turns the latter into an error) -/
+theorem header_class_boundary :
+    kvPair (asc "a: b: c\n") = .ok (asc "a", asc "b: c") [] ∧
+    kvPair (asc ": v\n") = .err ∧ kvPair (asc ":\n") = .err ∧ kvPair (asc "no colon\n") = .err ∧
+    kvPair (asc "Key:\nrest") = .ok (asc "Key", []) (asc "rest") ∧
+    kvPair (asc "Key:\r\nrest") = .ok (asc "Key", []) (asc "rest") ∧
+    kvPair (asc "Key: \n") = .ok (asc "Key", []) [] ∧
+    kvPair (asc "Key :\n") = .ok (asc "Key ", []) [] ∧
+    kvPair (asc "some:colon: with:me\n") = .ok (asc "some:colon", asc "with:me") [] := by
+  decide +kernel
+
+theorem header_class_boundary_rejects :
+    kvPair ([75, 58, 32, 255, 10]) = .err ∧
+    kvPair (asc "Key: a\rb\n") = .err ∧
+    kvPair (asc "Key: value") = .inc ∧ (kvPair (asc "Key: value")).complete = .err ∧
+    WFHeaders [(asc "a: b", [asc "c"])] = false ∧ WFHeaders [([], [asc "c"])] = false := by
+  decide +kernel
+
+/-- regression record for D10c: on the text `Comment: see below:` + blank line, the header-line parser
+as it was before commit 737e504 (`Pre737.kvPair`, whole-input search) returned the key
+`Comment: see below` with an empty value; the line-based parser returns the pair that was written -/
+theorem header_value_colon_regression :
+    Pre737.kvPair (asc "Comment: see below:\n\n") = .ok (asc "Comment: see below", []) (asc "\n") ∧
+    kvPair (asc "Comment: see below:\n\n") = .ok (asc "Comment", asc "see below:") (asc "\n") ∧
+    -- … and a later `Key: ` used to swallow what came before it
+    Pre737.kvPair (asc "\nAAAA\n-----END X-----\nNote: text\n") = .ok (asc "\nAAAA\n-----END X-----\nNote", asc "text") [] ∧
+    kvPair (asc "\nAAAA\n-----END X-----\nNote: text\n") = .err := by
   decide +kernel
 
 /-! ## non-vacuity -/
